@@ -977,7 +977,7 @@ def g_svc_add_interface(w, rng, st):
     n, x = rng.choice(ns)
     existing = [st.name(c) for c in st.cps_of_service(x)]
     pool = ['tp1', 'tp2', 'tp3']
-    if 'node_service_name_reuse' in w.avoid:
+    if 'node_interface_name_reuse' in w.avoid:
         pool = ['%s-%s' % (st.name(x), t) for t in pool]
     return {'node': st.name(n), 'svc': st.name(x), 'name': pick_name(rng, pool, existing),
             'itype': rng.choice(['TrunkPort', 'AccessPort', 'DedicatedPort']), 'id': w.new_id(rng),
